@@ -291,3 +291,48 @@ def W15_flag_forwarding(rep, flow, module="tomography", flag="full_hilbert_space
                 rep.finding("W15", f"{f.fq}:{nm}", f"{pyfacts.where(f, c)}: {f.qualname} takes `{flag}` but calls `{nm}` with the constant {given.value!r} [{pyfacts.norm_stmt(c)[:100]}]")
             else:
                 raise AnalysisError(f"{pyfacts.where(f, c)}: `{flag}` is handed on as `{ast.unparse(given)[:60]}`: not decidable here")
+
+
+CONNECTIVITY_NAMES = ("all", "linear", "star", "cycle", "T", "Q", "E", "H", "ladder")
+
+
+def W16_positional_connectivity(rep, flow, tree, api_modules=("stabilizer_circuits", "mub_circuits", "tomography", "connectivity_support")):
+    """the project's own usage (README code blocks, examples/, tests/) passes connectivity names POSITIONALLY; each such
+    argument must land on the parameter called `connectivity` of the function it is passed to - a parameter inserted in
+    front of it silently turns `f(x, "T")` into a request for the default connectivity"""
+    rep.rule("W16", "a connectivity name passed positionally in the README, the examples or the tests binds to the callee's `connectivity` parameter", floor=5)
+    prog = flow.prog
+    api = {}
+    for mn in api_modules:
+        m = prog.modules.get(mn)
+        if m is None:
+            continue
+        for f in m.funcs.values():
+            if not f.name.startswith("_") and "connectivity" in f.params:
+                api[f.name] = f
+    sources = []
+    if tree.exists("README.md"):
+        text = tree.read("README.md")
+        import re as _re
+        for i, blk in enumerate(_re.findall(r"```(?:py|python)\n(.*?)```", text, flags=_re.S)):
+            sources.append((f"README.md code block {i + 1}", blk))
+    for d in ("examples", "tests"):
+        for rel in tree.glob(d, "*.py"):
+            sources.append((rel, tree.read(rel)))
+    for (where_, text) in sources:
+        try:
+            mod = ast.parse(text)
+        except SyntaxError:
+            continue
+        for c in [x for x in ast.walk(mod) if isinstance(x, ast.Call)]:
+            nm = c.func.attr if isinstance(c.func, ast.Attribute) else (c.func.id if isinstance(c.func, ast.Name) else None)
+            if nm not in api or any(isinstance(a, ast.Starred) for a in c.args):
+                continue
+            f = api[nm]
+            for idx, a in enumerate(c.args):
+                if isinstance(a, ast.Constant) and isinstance(a.value, str) and a.value in CONNECTIVITY_NAMES:
+                    bound = f.params[idx] if idx < len(f.params) else None
+                    if bound == "connectivity":
+                        rep.ok("W16", 1, nontrivial=(where_, nm, getattr(c, "lineno", 0)))
+                    else:
+                        rep.finding("W16", f"{f.fq}:{idx}", f"{f.module.rel} {f.qualname}: the documented call `{ast.unparse(c)[:90]}` ({where_}, line {getattr(c, 'lineno', '?')}) passes the connectivity {a.value!r} as positional argument {idx + 1}, which the signature binds to `{bound}`; `connectivity` keeps its default and the request is served for another coupling map")
